@@ -6,7 +6,9 @@
 (* empty part of what has arrived; the reader first collects a 6-byte      *)
 (* header, then the body announced by it.  A frame is delivered when       *)
 (* complete; end-of-stream inside a frame is "connection closed" (Evt17),  *)
-(* never an invalid PDU.                                                   *)
+(* never an invalid PDU.  The reader asks the socket for at most 4096      *)
+(* bytes at a time, so a long body is collected over several RecvSome     *)
+(* steps whatever the peer's write pattern.                                *)
 (***************************************************************************)
 EXTENDS Integers, Sequences, FiniteSets, TLC
 
